@@ -41,6 +41,9 @@ def gen(rng):
                 op["n"] = rng.randint(2, 3)
             if op["op"] == "interp" and "n" in op:
                 op["n"] = rng.randint(4, 30)
+            if op["op"] == "interp" and "grid" in op and rng.random() < 0.5:
+                op["same_len"] = True      # a grid with as many points as the series has (buffers could be reused)
+                op["as_list"] = False
         else:
             op = {"op": "restore"}
             have_restore = True
@@ -109,6 +112,8 @@ def oracle(c, io):
         for j, cv in enumerate(s["caller"]):
             if cv is not None and prev is not None and cv != prev["caller"][j]:
                 return f"step {i} ({k}): an array handed in by the caller was modified"
+        if not all(s.get("handed_in_intact", [])):
+            return f"step {i} ({k}): an array handed in by the caller (the grid given to interpolate) was modified"
         if k == "restore":
             if s["x"] != s["ox"] or s["y"] != s["oy"] or s["rx"] != s["ox"] or s["ry"] != s["oy"]:
                 return f"step {i}: after restore_original working / reference differ from get_original()"
